@@ -17,4 +17,7 @@ GenInit == c \in GenCases
 GenSpec == GenInit /\ [][Next]_vars
 
 Dump == PrintT(<<"CASE", ToJson(c)>>)
+
+(* the message-structure lattice, both orders of every related pair *)
+ASSUME PrintT(<<"MSGCASES", ToJson(MsgCases)>>)
 =============================================================================
